@@ -680,3 +680,45 @@ def _check_rule(mon, tr, ph, t, ids, tv, pub):
             mon.count("rule_values_checked")
             if abs(want - val) > 1e-9 * (1 + abs(want)):
                 mon.violation("acq:rule-value", f"{v}: {acq} value of design {i} is {val}, recomputed {want}", pub)
+
+
+# ---------------------------------------------------------------------------------------
+# C11 in-run channel: the pessimistic set actually computed vs the per-vertex LP oracle
+# ---------------------------------------------------------------------------------------
+def check_pess(mon, tr, step):
+    case = tr.case
+    dph = phase(step, "discarding")
+    pess = step.get("pess")
+    if dph is None or pess is None:
+        return
+    W = case["W"]
+    R = dph["regions"]
+    two_by_two = W.shape == (2, 2)
+    act = sorted(R)
+    for i in act:
+        lo_best, hi_best = -np.inf, -np.inf
+        for j in act:
+            if j == i:
+                continue
+            lo, hi = G.pess_dominates_margin(W, R[j][1], R[j][2], R[i][1], R[i][2])  # does R_j pessimistically dominate R_i ?
+            lo_best, hi_best = max(lo_best, lo), max(hi_best, hi)
+        mag = max(float(np.abs(R[k][1]).max() + np.abs(R[k][2]).max()) for k in act)
+        tau = TAU_LP * (1 + mag)
+        mon.count("inrun_pess_events")
+        observed_in = i in pess
+        h = case_hash("pp", case["seed"], step["round_pre"], i)
+        ctx = {**case_public(case), "round": step["round_pre"], "design": i, "regions": {k: v[1:] for k, v in R.items()}}
+        if hi_best < -tau:  # nobody can dominate it: must be in the pessimistic set (soundness of check_dominates)
+            mon.event(h, True, "inrun/must-be-pessimistic")
+            mon.count("decisive_false")
+            if not observed_in:
+                mon.violation("pess:excluded-without-dominator", f"{case['variant']} round {step['round_pre']}: design {i} left out of the pessimistic "
+                              f"set but no active box pessimistically dominates it (best margin {hi_best:.4g})", ctx)
+        elif lo_best > tau and two_by_two and len(act) > 1:
+            mon.event(h, True, "inrun/must-not-be-pessimistic")
+            mon.count("complete_true_2x2")
+            if observed_in:
+                mon.violation("pess:kept-despite-dominator", f"{case['variant']} round {step['round_pre']}: design {i} is pessimistically dominated "
+                              f"(margin {lo_best:.4g}) but is in the pessimistic set", ctx)
+        else:
+            mon.event(h, False, "inrun/indeterminate")
